@@ -68,6 +68,8 @@ static Json fix(double d, bool &nan)
   return Json(v);
 }
 static const double PI = 3.14159265358979323846;
+// general angles (LinGeneral): {q, n, den} = q * pi / 2 + n / den
+static double angleQ(const Json &a) { return (double)a["q"].num() * (PI / 2) + (double)a["n"].num() / (double)a["den"].num(); }
 static double angleOf(const Json &arg) { return (double)arg["num"].num() * PI / (double)arg["den"].num(); }
 
 // ---------------------------------------------------------------------------------------
@@ -105,6 +107,18 @@ struct K3
     return L(e(r, 0, 0), e(r, 0, 1), e(r, 0, 2), e(r, 1, 0), e(r, 1, 1), e(r, 1, 2), e(r, 2, 0), e(r, 2, 1), e(r, 2, 2));
   }
   static AF aff(const Json &j) { return AF(mat(j["l"]), vec(j["p"])); }
+  static L mat8(const Json &r)  // K / 8
+  {
+    const T d = T(8);
+    return L(V(e(r, 0, 0) / d, e(r, 1, 0) / d, e(r, 2, 0) / d), V(e(r, 0, 1) / d, e(r, 1, 1) / d, e(r, 2, 1) / d),
+             V(e(r, 0, 2) / d, e(r, 1, 2) / d, e(r, 2, 2) / d));
+  }
+  static Q unitQ(const Json &h)  // integer quaternion, normalised here (input preparation)
+  {
+    const T r = (T)h[(size_t)0].num(), i = (T)h[(size_t)1].num(), j = (T)h[(size_t)2].num(), k = (T)h[(size_t)3].num();
+    const T n = std::sqrt(r * r + i * i + j * j + k * k);
+    return Q(r / n, i / n, j / n, k / n);
+  }
   static Q quatOfMatrix(const L &m) { return Q(VU(m.vx), VU(m.vy), VU(m.vz)); }
   static Q hurwitz(const Json &h) { return Q((T)h[(size_t)0].num() / 2, (T)h[(size_t)1].num() / 2, (T)h[(size_t)2].num() / 2, (T)h[(size_t)3].num() / 2); }
 
@@ -160,6 +174,15 @@ struct K3
     o.set("l", jmS(x.l));
     o.set("p", jvS(x.p));
     return o;
+  }
+  Json jqS(const Q &q)
+  {
+    Json a = Json::array();
+    a.push(fix(q.r, nan));
+    a.push(fix(q.i, nan));
+    a.push(fix(q.j, nan));
+    a.push(fix(q.k, nan));
+    return a;
   }
   static Json jq2(const Q &q)  // components doubled
   {
@@ -419,6 +442,70 @@ struct K3
       const L m(q);
       o.set("m", jm(m));
       o.set("m_s", jmS(m));
+      // ------------------------------------------------------------------ non-lattice families (LinGeneral): record only
+    } else if (a == "GenRot") {
+      const V u = unit(arg["axis"]);
+      const double da = angleQ(arg["a"]), db = angleQ(arg["b"]);
+      const L R1 = L::rotate(u, (T)da);
+      const Q q1 = Q::rotate(VU(u), (T)da);
+      const Q q2 = quatOfMatrix(R1);
+      o.set("us", jvS(u));
+      o.set("R1", jmS(R1));
+      o.set("R2", jmS(L::rotate(u, (T)db)));
+      o.set("R12", jmS(L::rotate(u, (T)(da + db))));
+      o.set("Rm", jmS(L::rotate(u, (T)(-da))));
+      o.set("q1", jqS(q1));
+      o.set("MQ1", jmS(L(q1)));
+      o.set("q2", jqS(q2));
+      o.set("MQ2", jmS(L(q2)));
+    } else if (a == "GenHalf") {
+      const V u = unit(arg["axis"]);
+      o.set("us", jvS(u));
+      Json c = Json::array();
+      double ang = PI;
+      for (long long j = 0; j <= arg["depth"].num(); ++j, ang *= 0.5) c.push(jmS(L::rotate(u, (T)ang)));
+      o.set("C", c);
+      o.set("F", jmS(L::rotate(u, (T)(2 * PI))));
+    } else if (a == "GenSlerp") {
+      const Q x = unitQ(arg["ha"]), y = unitQ(arg["hb"]);
+      o.set("qa", jqS(x));
+      o.set("qb", jqS(y));
+      o.set("A", jmS(L(x)));
+      o.set("B", jmS(L(y)));
+      Json rq = Json::array(), rm = Json::array();
+      const Json &ts = arg["ts"];
+      for (size_t k = 0; k < ts.size(); ++k) {
+        const Q q = slerp((float)ts[k].num() / 8.0f, x, y);
+        rq.push(jqS(q));
+        rm.push(jmS(L(q)));
+      }
+      o.set("rq", rq);
+      o.set("RM", rm);
+    } else if (a == "GenMat3") {
+      const AF x(mat8(arg["ka"]), vec(arg["pa"]) / T(8)), y(mat8(arg["kb"]), vec(arg["pb"]) / T(8));
+      const L inv = x.l.inverse();
+      o.set("det", fix(x.l.det(), nan));
+      o.set("detb", fix(y.l.det(), nan));
+      o.set("detab", fix((x.l * y.l).det(), nan));
+      o.set("inv", jmS(inv));
+      o.set("minv", jmS(x.l * inv));
+      o.set("invm", jmS(inv * x.l));
+      const AF r = rcp(x);
+      o.set("rcp", jaffS(r));
+      o.set("rcpmul", jaffS(r * x));
+      Json nr = Json::array(), cp = Json::array(), ns = Json::array();
+      const AF xy = x * y;
+      const Json &vs = arg["vs"];
+      for (size_t k = 0; k < vs.size(); ++k) {
+        const V v = vec(vs[k]);
+        nr.push(jvS(xfmNormal(x.l, v)));
+        const V p = V(v / T(8));
+        cp.push(jvS(xfmPoint(xy, p)));
+        ns.push(jvS(xfmPoint(x, V(xfmPoint(y, p)))));
+      }
+      o.set("normal", nr);
+      o.set("composed", cp);
+      o.set("nested", ns);
       // ------------------------------------------------------------------ recorded executions
     } else if (a == "TNew") {
       cur = AF(one);
@@ -603,6 +690,18 @@ struct K2
       o.set("plain", jaff(AF::rotate(r)));
     } else if (a == "Aff2RotAbout") {
       if (!RotateAbout2<T>::run(arg, (T)angleOf(arg), o)) o.set("ret", "n/a");
+    } else if (a == "GenMat2") {
+      const T d = T(8);
+      const Json &ka = arg["ka"], &kb = arg["kb"];
+      const L x(V(e(ka, 0, 0) / d, e(ka, 1, 0) / d), V(e(ka, 0, 1) / d, e(ka, 1, 1) / d));
+      const L y(V(e(kb, 0, 0) / d, e(kb, 1, 0) / d), V(e(kb, 0, 1) / d, e(kb, 1, 1) / d));
+      const L inv = x.inverse();
+      o.set("det", fix(x.det(), nan));
+      o.set("detb", fix(y.det(), nan));
+      o.set("detab", fix((x * y).det(), nan));
+      o.set("inv", jmS(inv));
+      o.set("minv", jmS(x * inv));
+      o.set("invm", jmS(inv * x));
     } else if (a == "Orthogonal2") {
       const L q = mat(arg["m"]).orthogonal();
       o.set("q_s", jmS(q));
@@ -630,7 +729,7 @@ struct RotateAbout2<float>
 static bool is2D(const std::string &a)
 {
   return a == "Unary2" || a == "Inverse2" || a == "MulVec2" || a == "Pair2" || a == "Rotate2" || a == "Ctor2" || a == "Aff2Pair"
-      || a == "Aff2Rot" || a == "Aff2RotAbout" || a == "Orthogonal2";
+      || a == "Aff2Rot" || a == "Aff2RotAbout" || a == "Orthogonal2" || a == "GenMat2";
 }
 
 struct World
